@@ -195,6 +195,9 @@ def gen_world(rng, policy=None, allow_zero_runtime=False, closed_loop=False, con
         # invocations that are DROPPED (not finished) also unlock their successors
         if rng.random() < 0.5:
             flags["drop_skipped_tasks"] = True
+        # a bound on the deadline slack that binds: every invocation, also the ones created while the run goes on, obeys it
+        if rng.random() < 0.5:
+            flags["min_deadline"] = rng.choice([300, 1000])
     return {"workload": {"graphs": graphs, "profiles": profiles}, "workers": pools, "flags": flags,
             "policy": policy}
 
